@@ -1,6 +1,7 @@
 package props
 
 import (
+	"regexp"
 	"bytes"
 	"fmt"
 	"strings"
@@ -47,8 +48,15 @@ func c04canonLeaf(m *meta.Module, path []string, name string, isList bool, text 
 		}
 		return strings.Join(parts, "\x1e"), v.Value()
 	}
+	if canon := refstore.ValText(v); c04intText.MatchString(text) && canon != text {
+		// an integer literal is its own canonical text: the conversion on the way in turned it into another number
+		c04canonIssues = append(c04canonIssues, fmt.Sprintf("leaf %s/%s of type %s: the value %s is taken in as %s", strings.Join(path, "/"), name, lf.Type().Ident(), text, canon))
+	}
 	return refstore.ValText(v), v.Value()
 }
+
+var c04intText = regexp.MustCompile(`^-?(0|[1-9][0-9]*)$`)
+var c04canonIssues []string
 
 func c04canonBody(m *meta.Module, sc *c15schema, kids []*gen.SNode, body []*gen.DNode, path []string) {
 	for i, s := range kids {
@@ -145,7 +153,11 @@ func C04(c *core.Ctx) {
 		}
 		for di := 0; di < c.N(5, 15); di++ {
 			tree := c15data(r, sc, sc.kids, 45+r.Intn(50))
+			c04canonIssues = nil
 			c04canonBody(m, sc, sc.kids, tree, nil)
+			for _, is := range c04canonIssues {
+				c.Violation(core.Replay{Kind: "property-failure", Class: "value-changed-on-input", Summary: is, Input: map[string]interface{}{"yang": y}})
+			}
 			want := gen.Canon(sc.kids, tree, false)
 			fkids, ftree := gen.Flatten(sc.kids, tree)
 			modelLine := "data kids upsert ; " + strings.Join(gen.SchemaTokens(fkids), " ") + " ; " + strings.Join(gen.BodyTokens(fkids, ftree), " ") + " ; " + strings.Join(gen.BodyTokens(fkids, gen.EmptyBody(fkids)), " ")
